@@ -24,11 +24,13 @@ def _result_collection(ctx: Ctx, fi) -> S:
     rets = atoms_of(c, lambda x: x[0] == "ret")
     ctx.require(len(rets) >= 1, "split_rectangles: no return")
     cols = set()
+    from .common import collect_of
     for r in rets:
         v = r[1]
-        if v[0] == "comp" and v[1] == "list" and len(v[3]) == 1:
-            cols.add(v[3][0][1])
-            if v[3][0][2] != ("k", "bool", True):
+        col = collect_of(c, v) if v[:1] == ("v",) else None      # [x.rect for x in heap] in the normal form: a collecting loop
+        if col is not None and len(col) == 1:
+            cols.add(col[0][0])
+            if col[0][3] != ("k", "bool", True):
                 cols.add(("filtered",))
         else:
             cols.add(("other", show(v)))
